@@ -120,6 +120,20 @@ func (p *sxParser) parse() (*SX, error) {
 					sb.WriteByte('\\')
 				case '"':
 					sb.WriteByte('"')
+				case 'u':
+					// \u{hh}: SMT-LIB escape for one byte
+					if p.pos+2 < len(p.src) && p.src[p.pos+2] == '{' {
+						end := strings.IndexByte(p.src[p.pos:], '}')
+						if end > 0 {
+							var code int
+							fmt.Sscanf(p.src[p.pos+3:p.pos+end], "%x", &code)
+							sb.WriteByte(byte(code))
+							p.pos += end + 1
+							continue
+						}
+					}
+					sb.WriteByte('\\')
+					sb.WriteByte(n)
 				default:
 					sb.WriteByte('\\')
 					sb.WriteByte(n)
